@@ -9,6 +9,8 @@
 package main
 
 import (
+	"io"
+	"log"
 	"crypto/sha256"
 	"encoding/hex"
 	"encoding/json"
@@ -134,7 +136,18 @@ func main() {
 
 var extraCmds = map[string]func([]string) int{}
 
+// quiet discards what the library prints (fmt.Printf / log) while cases run.
+func quiet() {
+	if dn, err := os.OpenFile(os.DevNull, os.O_WRONLY, 0); err == nil {
+		os.Stdout = dn
+	}
+	log.SetOutput(io.Discard)
+}
+
 func cmdRun(args []string) int {
+	realStdout := os.Stdout
+	quiet()
+	defer func() { os.Stdout = realStdout }()
 	fs := flag.NewFlagSet("run", flag.ExitOnError)
 	propID := fs.String("prop", "", "property id")
 	tier := fs.String("tier", "quick", "quick|thorough")
@@ -342,7 +355,7 @@ func cmdRun(args []string) int {
 	if *out != "" {
 		os.WriteFile(*out, b, 0o644)
 	} else {
-		fmt.Println(string(b))
+		fmt.Fprintln(realStdout, string(b))
 	}
 	if len(sum.Errors) > 0 {
 		fmt.Fprintln(os.Stderr, "errors:", sum.Errors[0])
